@@ -47,6 +47,9 @@ CHECKS = {
  'C13': dict(cat='exploration', engine='E2', tech='bounded-exhaustive enumeration of mixtures x partial-pressure lattice x all component permutations; IAST equations re-derived from the returned loadings with independent quadrature',
    text='All 2-subsets of a 15-isotherm pool (every IAST-capable model type, 3 dense point isotherms) x 9 partial-pressure vectors x both orders, 24 ternary subsets x 27 vectors x 6 permutations, 2 quaternary subsets x 81 vectors x 24 permutations (quick thins the vectors): from each returned result mole fractions, equal spreading pressure at p_i/x_i (independent quadrature / point-isotherm definition, not the library function), ideal mixing rule, Henry and equal-capacity Langmuir closed forms, permutation invariance, user starting guess, fraction/selectivity/VLE helpers, reverse-after-forward, and IAST on the same objects before/after permanent conversions.',
    note='Calls that raise are counted as did-not-return (per component count; >50% is a vacuity error).', ref='§4 C13'),
+ 'C20': dict(cat='exploration', engine='E2', tech='exhaustive enumeration of the shipped registry (names x aliases x case variants, both data sources) and of property-call pairs against CoolProp PropsSI',
+   text='All 176 shipped adsorbates x name and every alias x 5 case variants through Adsorbate.find and the isotherm constructor; alias -> adsorbate must be a function; adsorbates.json and the packaged default.db must describe the same registry; registry-replacement sequences. All 81 backend-linked adsorbates x a temperature lattice across (T_triple, T_critical) (quick 5, thorough 25 points) x 7 property methods against the independent high-level CoolProp API, density identities, p_triple <= p_sat <= p_crit, monotone p_sat, positive enthalpy, all 8 pressure units, and every ordered pair of 10 property calls (incl. pressure-specified enthalpy) on a reset adsorbate; the fallback alphabet (4 adsorbate kinds x 13 methods x calculate flag) and super-critical refusal.',
+   note='CoolProp trusted as equation of state.', ref='§4 C20'),
 }
 
 def main():
